@@ -445,3 +445,269 @@ theorem tick_lagW (P : Prog) (c d : Cfg) (h : LagW c d) (hinv : InvP c) :
             (by intro e he; rw [hpd] at he; cases he))
           (wake_invP _ _ _ _ (hinv.same ⟨rfl, rfl, rfl, rfl⟩)) hD
     | _ => have := h.wait; rw [hst] at this; cases this
+
+/-! ### histories -/
+
+/-- the wake-up requests of the partial theorems -/
+def isWake : Ev → Bool
+  | .resume _ | .complete _ _ | .tickCb (.adone _) | .callSoon _ | .tickCb (.usercb false) => true
+  | _ => false
+
+/-- the current state is WAITING on a future that has no outcome yet -/
+def pendingWait (c : Cfg) : Bool :=
+  match c.st with
+  | .waiting _ wf _ _ => c.wfs[wf]? == some .pending
+  | _ => false
+
+/-- the stepping task is suspended on a pause future (the process is held by a pause, or released and not yet woken) -/
+def heldPc (c : Cfg) : Bool := isAwaitPaused c.pc
+
+/-- a position at which the second partial theorem admits a wake-up request: a quiet one, or one at which the process is held
+by a pause *on a wait* — `g` (computed along the history by `nextG`) says that an earlier wake-up already arrived during this
+hold, otherwise the wait must still be pending -/
+def wakeOk (g : Bool) (c : Cfg) : Bool := quiet c || (heldPc c && (g || pendingWait c))
+
+def evAllowed2 (g : Bool) (c : Cfg) (e : Ev) : Bool :=
+  match e with
+  | .tick | .pause | .play => true
+  | e => isWake e && wakeOk g c
+
+/-- the flag "held on a wait, and the reference run is suspended on that wait" after one event -/
+def nextG (g : Bool) (c : Cfg) (e : Ev) : Bool :=
+  match e with
+  | .tick => heldPc c && !runsBody c && g
+  | .pause | .play => g
+  | _ => if heldPc c then true else g
+
+def admissible2 (P : Prog) : Bool → Cfg → List Ev → Bool
+  | _, _, [] => true
+  | g, c, e :: es => evAllowed2 g c e && admissible2 P (nextG g c e) (step P c e).1 es
+
+/-- image of one event in the reference history: as `evImage`, but the tick that wakes the stepping task from a hold during
+which wake-ups arrived is kept (the reference run resumes its wait at that tick, too) -/
+def evImage2 (g : Bool) (c : Cfg) : Ev → List Ev
+  | .pause => []
+  | .play => []
+  | .tick => if heldPc c then (if g && runsBody c then [.tick] else []) else [.tick]
+  | e => [e]
+
+def unpaused2 (P : Prog) : Bool → Cfg → List Ev → List Ev
+  | _, _, [] => []
+  | g, c, e :: es => evImage2 g c e ++ unpaused2 P (nextG g c e) (step P c e).1 es
+
+/-- the extended simulation relation: `LagW` when the flag is set, `Sim` otherwise -/
+def Sim2 (P : Prog) (g : Bool) (c d : Cfg) : Prop :=
+  (g = true ∧ LagW c d) ∨ ((g = false ∨ heldPc c = false) ∧ Sim P c d)
+
+theorem Sim.held {P : Prog} {c d : Cfg} (h : Sim P c d) (hp : heldPc c = true) : Lag P c d := by
+  rcases h with h | h | h
+  · have := h.pc
+    cases hpc : c.pc with
+    | awaitPaused pf => rw [hpc] at this; exact absurd this (by simp [PcRelAt])
+    | _ => simp [heldPc, hpc, isAwaitPaused] at hp
+  · obtain ⟨fn, wf, aw, wf', k, _, _, _, _, hpc, _⟩ := h.wait
+    simp [heldPc, hpc, isAwaitPaused] at hp
+  · exact h
+
+theorem Sim.ckill {P : Prog} {c d : Cfg} (h : Sim P c d) : c.killing = none := by
+  rcases h with h | h | h
+  · exact h.core.ckill
+  · exact h.ckill
+  · exact h.2.choose_spec.choose_spec.2.2.2.core.ckill
+
+theorem pause_pc (c : Cfg) (hk : c.killing = none) : (pause c).1.pc = c.pc := by
+  rcases pause_shape c hk with b | ⟨_, he⟩ | ⟨_, _, b⟩
+  · exact b.1.2.2.2
+  · rw [he]; rfl
+  · rw [b.1.2.2.2]; exact (requestInterrupt_props c).2.2.1
+
+theorem wake_pc (P : Prog) (c : Cfg) (e : Ev) (h : isWake e = true) : (step P c e).1.pc = c.pc := by
+  cases e with
+  | resume v => exact (resume_hf c v).1
+  | complete f o => exact (complete_hf c f o).1
+  | callSoon r => rfl
+  | tickCb cb =>
+    cases cb with
+    | adone f => exact (tickCb_adone_hf c f).1
+    | trykill => cases h
+    | usercb r =>
+      cases r with
+      | false => exact (tickCb_usercb_hf c).1
+      | true => cases h
+  | _ => cases h
+
+theorem wake_lagW (P : Prog) (c d : Cfg) (e : Ev) (h : isWake e = true) (hl : LagW c d) :
+    LagW (step P c e).1 (step P d e).1 := by
+  cases e with
+  | resume v => exact resume_lagW c d v hl
+  | complete f o => exact complete_lagW c d f o hl
+  | callSoon r => exact callSoon_lagW c d r hl
+  | tickCb cb =>
+    cases cb with
+    | adone f => exact tickCb_adone_lagW c d f hl
+    | trykill => cases h
+    | usercb r =>
+      cases r with
+      | false => exact tickCb_usercb_lagW c d hl
+      | true => cases h
+  | _ => cases h
+
+theorem wake_evAllowed (c : Cfg) (e : Ev) (h : isWake e = true) (hq : quiet c = true) : evAllowed c e = true := by
+  cases e with
+  | resume v => exact hq
+  | complete f o => exact hq
+  | callSoon r => exact hq
+  | tickCb cb =>
+    cases cb with
+    | adone f => exact hq
+    | trykill => cases h
+    | usercb r =>
+      cases r with
+      | false => exact hq
+      | true => cases h
+  | _ => cases h
+
+theorem wake_evImage (c : Cfg) (e : Ev) (h : isWake e = true) (g : Bool) : evImage2 g c e = [e] ∧ evImage c e = [e] := by
+  cases e <;> first | exact ⟨rfl, rfl⟩ | cases h
+
+theorem wake_nextG (c : Cfg) (e : Ev) (h : isWake e = true) (g : Bool) : nextG g c e = if heldPc c then true else g := by
+  cases e <;> first | rfl | cases h
+
+theorem pendingWait_spec (c : Cfg) (h : pendingWait c = true) :
+    ∃ fn wf wk aw, c.st = .waiting fn wf wk aw ∧ c.wfs[wf]? = some .pending := by
+  unfold pendingWait at h
+  split at h
+  · rename_i fn wf wk aw hst
+    exact ⟨fn, wf, wk, aw, hst, by simpa using h⟩
+  · cases h
+
+theorem quiet_not_held (c : Cfg) (h : heldPc c = true) : quiet c = false := by
+  simp only [heldPc] at h
+  simp [quiet, h]
+
+theorem evAllowed2_wake (g : Bool) (c : Cfg) (e : Ev) (ha : evAllowed2 g c e = true)
+    (h1 : e ≠ .tick) (h2 : e ≠ .pause) (h3 : e ≠ .play) : isWake e = true ∧ wakeOk g c = true := by
+  cases e with
+  | tick => exact absurd rfl h1
+  | pause => exact absurd rfl h2
+  | play => exact absurd rfl h3
+  | _ => simpa [evAllowed2] using ha
+
+/-- one wake-up request and its image -/
+theorem wake_sim2 (P : Prog) (g : Bool) (c d : Cfg) (e : Ev) (h : Sim2 P g c d) (hinv : InvP c) (hI : Inv c)
+    (hw : isWake e = true) (hok : wakeOk g c = true) :
+    Sim2 P (nextG g c e) (step P c e).1 (step P d e).1 := by
+  rw [wake_nextG c e hw g]
+  rcases h with ⟨hg, hl⟩ | ⟨hc, hs⟩
+  · have hh : heldPc c = true := hl.pc
+    rw [if_pos hh]
+    exact Or.inl ⟨rfl, wake_lagW P c d e hw hl⟩
+  · by_cases hh : heldPc c = true
+    · rw [if_pos hh]
+      have hg : g = false := by
+        rcases hc with hc | hc
+        · exact hc
+        · rw [hh] at hc; cases hc
+      subst hg
+      have hlag := hs.held hh
+      have hpw : pendingWait c = true := by
+        simpa [wakeOk, quiet_not_held c hh, hh] using hok
+      obtain ⟨fn, wf, wk, aw, hst, hwp⟩ := pendingWait_spec c hpw
+      exact Or.inl ⟨rfl, wake_lagW P c d e hw (lag_to_lagW P c d hlag hI fn wf wk aw hst hwp)⟩
+    · have hhf : heldPc c = false := by simpa using hh
+      rw [if_neg hh]
+      have hq : quiet c = true := by simpa [wakeOk, hhf] using hok
+      have := step_sim P c d e hs hinv hI (wake_evAllowed c e hw hq) (by rw [(wake_evImage c e hw g).2]; simp [fuelOk]; cases e <;> first | rfl | cases hw)
+      rw [(wake_evImage c e hw g).2] at this
+      refine Or.inr ⟨Or.inr ?_, this⟩
+      simp only [heldPc] at hhf ⊢
+      rw [wake_pc P c e hw]; exact hhf
+
+/-- one event of the history with pauses and its image in the reference history -/
+theorem step_sim2 (P : Prog) (g : Bool) (c d : Cfg) (e : Ev) (h : Sim2 P g c d) (hinv : InvP c) (hI : Inv c)
+    (ha : evAllowed2 g c e = true) (hf : fuelOk P d (evImage2 g c e) = true) :
+    Sim2 P (nextG g c e) (step P c e).1 (run P d (evImage2 g c e)) := by
+  by_cases h1 : e = .tick
+  · subst h1
+    rcases h with ⟨hg, hl⟩ | ⟨hc, hs⟩
+    · have hh : heldPc c = true := hl.pc
+      subst hg
+      by_cases hr : runsBody c = true
+      · have him : evImage2 true c .tick = [.tick] := by simp [evImage2, hh, hr]
+        rw [him] at hf ⊢
+        simp only [fuelOk, Bool.and_true] at hf
+        have hng : nextG true c .tick = false := by simp [nextG, hh, hr]
+        rw [hng]
+        exact Or.inr ⟨Or.inl rfl, ((tick_lagW P c d hl hinv).2 hr hf).sim⟩
+      · have hrf : runsBody c = false := by simpa using hr
+        have him : evImage2 true c .tick = [] := by simp [evImage2, hh, hrf]
+        have hng : nextG true c .tick = true := by simp [nextG, hh, hrf]
+        rw [him, hng]
+        exact Or.inl ⟨rfl, (tick_lagW P c d hl hinv).1 hrf⟩
+    · have him : evImage2 g c .tick = evImage c .tick := by
+        rcases hc with hc | hc
+        · subst hc; simp [evImage2, evImage, heldPc]
+        · simp only [heldPc] at hc; simp [evImage2, evImage, heldPc, hc]
+      have hng : nextG g c .tick = false := by
+        rcases hc with hc | hc
+        · subst hc; simp [nextG]
+        · simp [nextG, hc]
+      rw [him] at hf ⊢
+      rw [hng]
+      exact Or.inr ⟨Or.inl rfl, step_sim P c d .tick hs hinv hI rfl hf⟩
+  · by_cases h2 : e = .pause
+    · subst h2
+      show Sim2 P g (pause c).1 d
+      rcases h with ⟨hg, hl⟩ | ⟨hc, hs⟩
+      · exact Or.inl ⟨hg, pause_lagW c d hl⟩
+      · refine Or.inr ⟨?_, pause_sim P c d hs⟩
+        simp only [heldPc] at hc ⊢
+        rw [pause_pc c hs.ckill]; exact hc
+    · by_cases h3 : e = .play
+      · subst h3
+        show Sim2 P g (play c).1 d
+        rcases h with ⟨hg, hl⟩ | ⟨hc, hs⟩
+        · exact Or.inl ⟨hg, play_lagW c d hl⟩
+        · refine Or.inr ⟨?_, play_sim P c d hs⟩
+          simp only [heldPc] at hc ⊢
+          rw [(play_shape c).1.2.2.2]; exact hc
+      · obtain ⟨hw, hok⟩ := evAllowed2_wake g c e ha h1 h2 h3
+        rw [(wake_evImage c e hw g).1]
+        exact wake_sim2 P g c d e h hinv hI hw hok
+
+/-- **simulation over whole histories (second part)** -/
+theorem run_sim2 (P : Prog) : ∀ (evs : List Ev) (g : Bool) (c d : Cfg), Sim2 P g c d → InvP c → Inv c →
+    admissible2 P g c evs = true → fuelOk P d (unpaused2 P g c evs) = true →
+    ∃ g', Sim2 P g' (run P c evs) (run P d (unpaused2 P g c evs)) := by
+  intro evs
+  induction evs with
+  | nil => intro g c d h _ _ _ _; exact ⟨g, h⟩
+  | cons e es ih =>
+    intro g c d h hinv hI ha hf
+    simp only [admissible2, Bool.and_eq_true] at ha
+    simp only [unpaused2, fuelOk_append, Bool.and_eq_true] at hf
+    rw [show run P c (e :: es) = run P (step P c e).1 es from rfl]
+    simp only [unpaused2, run_append]
+    exact ih _ _ _ (step_sim2 P g c d e h hinv hI ha.1 hf.1) (step_invP P c e hinv) (step_inv P c e hI) ha.2 hf.2
+
+theorem sim2_init (P : Prog) (nf : Nat) : Sim2 P false (init nf) (init nf) := Or.inr ⟨Or.inl rfl, sim_init P nf⟩
+
+/-- when the run with pauses has terminated, so has the reference run, in the same state and with the same shared fields -/
+theorem Sim2.of_terminal {P : Prog} {g : Bool} {c d : Cfg} (h : Sim2 P g c d) (ht : terminal c.st.label = true) :
+    d.st = c.st ∧ sh d = sh c := by
+  rcases h with ⟨_, hl⟩ | ⟨_, hs⟩
+  · have := hl.wait
+    cases hst : c.st with
+    | waiting fn wf wk aw => rw [hst] at ht; simp [SObj.label, PMF.terminal, allowed] at ht
+    | _ => rw [hst] at this; cases this
+  · exact hs.of_terminal ht
+
+theorem Sim2.never_ahead {P : Prog} {g : Bool} {c d : Cfg} (h : Sim2 P g c d) : TraceExt c d := by
+  rcases h with ⟨_, hl⟩ | ⟨_, hs⟩
+  · have h1 := (sh_fields hl.view.core.sh).2.2.2.2.2.2.2.2.2.2.2.1
+    refine TraceExt.of_eq ?_
+    rw [← h1]
+    cases hst : c.st with
+    | waiting fn wf wk aw => rw [onWait_waiting c fn wf wk aw hst]
+    | _ => unfold onWait; rw [hst]
+  · exact hs.never_ahead
